@@ -1,15 +1,17 @@
 package props
 
 import (
-	"time"
 	"bytes"
+	"cosmossdk.io/math"
 	"encoding/gob"
 	"encoding/hex"
 	"encoding/json"
 	"fmt"
+	"github.com/palomachain/paloma/v2/app"
 	"os"
 	"os/exec"
 	"strings"
+	"time"
 
 	abci "github.com/cometbft/cometbft/abci/types"
 	sdk "github.com/cosmos/cosmos-sdk/types"
@@ -178,6 +180,10 @@ func c08(r *core.Run) []*core.Violation {
 	if cfg.NVals >= 4 {
 		w.Pigeons[cfg.NVals-1].Hooks.Evidence = w.byzEvidence(cfg.NVals - 1)
 	}
+	// light-node licences with vesting periods (month arithmetic on the block time): governance names a fee granter,
+	// users buy licences for fresh keys, the licensees activate them
+	w.Gov.Propose("feegranter", nil, Legacy(palomaFeegranterProposal(w.Users[0].Bech32())))
+	var licensees []*world.Account
 	levels := []palomatypes.MsgAddStatusUpdate_Level{palomatypes.MsgAddStatusUpdate_LEVEL_DEBUG, palomatypes.MsgAddStatusUpdate_LEVEL_INFO, palomatypes.MsgAddStatusUpdate_LEVEL_ERROR, 3, 77}
 	nBlocks := 50 + t.Intn(70)
 	for i := 0; i < nBlocks && !w.Aborted; i++ {
@@ -190,6 +196,20 @@ func c08(r *core.Run) []*core.Violation {
 				Args: []palomatypes.MsgAddStatusUpdate_KeyValuePair{{Key: "k", Value: "v"}}}
 			if p.send("status", msg) {
 				r.Stats.Probe(fmt.Sprintf("status_updates_level_%d", lvl))
+			}
+		}
+		if t.Chance(1, 8) {
+			u := w.Users[t.Intn(len(w.Users))]
+			l := world.NewAccount(r.Seed, fmt.Sprintf("licensee%d", len(licensees)), nil)
+			licensees = append(licensees, l)
+			w.Submit(u, &palomatypes.MsgAddLightNodeClientLicense{Metadata: meta(u), ClientAddress: l.Bech32(), Amount: sdk.NewCoin(app.BondDenom, math.NewInt(int64(1000+t.Intn(100000)))), VestingMonths: uint32(1 + t.Intn(36))})
+		}
+		if len(licensees) > 0 && t.Chance(1, 5) {
+			l := licensees[t.Intn(len(licensees))]
+			if l.Known || w.N.SyncAccount(l) {
+				if w.Submit(l, &palomatypes.MsgRegisterLightNodeClient{Metadata: meta(l)}).Accepted() {
+					r.Stats.Probe("licence_activations_sent")
+				}
 			}
 		}
 		w.Step()
@@ -251,7 +271,7 @@ func c08(r *core.Run) []*core.Violation {
 			core.Harnessf("subprocess follower: %v", err)
 		} else if h != 0 {
 			viols = append(viols, vio("C08", "twin-diverged", h, map[string]string{"follower": "other-process"},
-				fmt.Sprintf("another OS process (GOMAXPROCS=1, TZ=Asia/Tokyo, %s set, wall clock of the Go runtime's fake time, i.e. 2009) diverged from the leader at height %d: %s", envFF, h, what)))
+				fmt.Sprintf("another OS process (GOMAXPROCS=1, another TZ, %s set, wall clock of the Go runtime's fake time, i.e. 2009) diverged from the leader at height %d: %s", envFF, h, what)))
 		}
 		r.Stats.Probe("followers_other_process")
 	}
@@ -307,7 +327,9 @@ func followInSubprocess(h *History) (int64, string, error) {
 	// a sibling binary built with -tags faketime runs under another wall clock (the Go runtime's fake clock starts in 2009
 	// and only advances while every goroutine sleeps): state that depends on time.Now() differs between leader and follower
 	resPath := path + ".result"
-	env := append(os.Environ(), "GOMAXPROCS=1", "TZ=Asia/Tokyo", envFF+"=1")
+	// time zones with and without daylight saving, east and west of UTC (calendar arithmetic in local time differs)
+	tz := []string{"Asia/Tokyo", "America/New_York", "Pacific/Kiritimati", "Europe/Berlin"}[len(h.Blocks)%4]
+	env := append(os.Environ(), "GOMAXPROCS=1", "TZ="+tz, envFF+"=1")
 	if _, err := os.Stat(exe + "-faketime"); err == nil {
 		exe += "-faketime"
 		env = append(env, "VERIF_FOLLOW_OUT="+resPath)
